@@ -410,6 +410,86 @@ def _sentinel_function(*args, **kwargs):
     raise AssertionError("sentinel called")
 
 
+def equal_forms(v):
+    """the same value in the other forms users pass it in"""
+    if isinstance(v, bool):
+        return [np.bool_(v)]
+    if isinstance(v, int):
+        return [np.int64(v), np.array(v)]
+    if isinstance(v, float):
+        return [np.float64(v), np.array(v)] if v == v else [np.float64(v)]
+    if isinstance(v, str):
+        return [np.str_(v)]
+    if isinstance(v, list) and all(isinstance(x, (int, float, str, bool, type(None))) for x in v):
+        return [tuple(v)]
+    if isinstance(v, tuple) and all(isinstance(x, (int, float, str, bool, type(None))) for x in v):
+        return [list(v)]
+    return []
+
+
+def _same_value(a, b):
+    try:
+        if type(a) is not type(b):
+            return False
+        r = (a == b) | ((a != a) & (b != b)) if isinstance(a, (float, np.floating, np.ndarray)) else a == b
+        return bool(np.all(r))
+    except Exception:
+        return False
+
+
+def _clone_routes(cls, required, pname, w):
+    """[(route, what went wrong)] for: set_params(p=w) then clone; the same through a nested name; and configured
+    from a numpy grid the way a tuner does (clone, set_params(**candidate), clone)"""
+    from sklearn.base import clone
+    from sklearn.model_selection import ParameterGrid
+    bad = []
+
+    expect = {"v": w}
+
+    def attempt(route, make, key):
+        try:
+            with warnings.catch_warnings():
+                warnings.simplefilter("ignore")
+                expect["v"] = w
+                est = make()
+                c = clone(est)
+                got = c.get_params(deep=True)[key]
+            if not _same_value(got, expect["v"]):
+                bad.append((route, "clone holds %r (%s)" % (got, type(got).__name__)))
+        except BaseException as e:
+            if isinstance(e, (KeyboardInterrupt, SystemExit)):
+                raise
+            bad.append((route, "clone raises %s" % canon_err(e)))
+
+    def direct():
+        e = cls(**required)
+        e.set_params(**{pname: w})
+        return e
+
+    def nested():
+        from sktime.transformations.series.compose import OptionalPassthrough
+        h = OptionalPassthrough(transformer=cls(**required))
+        h.set_params(**{"transformer__" + pname: w})
+        return h
+
+    def grid():
+        from sktime.forecasting.compose import TransformedTargetForecaster
+        h = TransformedTargetForecaster(steps=[("s", cls(**required))])
+        cand = list(ParameterGrid({"s__" + pname: np.array([w]) if np.ndim(w) == 0 and not isinstance(w, (str, np.str_)) else [w]}))[0]
+        expect["v"] = cand["s__" + pname]          # what the grid hands out (a numpy scalar for numbers)
+        return clone(h).set_params(**cand)
+    try:
+        cls(**required).set_params(**{pname: w})
+    except BaseException:
+        return bad                       # set_params itself refuses: nothing to clone
+    attempt("set_params+clone", direct, pname)
+    if not bad:
+        attempt("nested set_params+clone", nested, "transformer__" + pname)
+    if not bad:
+        attempt("numpy grid candidate+clone", grid, "s__" + pname)
+    return bad
+
+
 def _is_notfitted(e):
     return any(c.__name__ == "NotFittedError" for c in type(e).__mro__)
 
@@ -628,9 +708,37 @@ def _probe_class(module, name, key, table_params, do_fit=True, budget_s=20.0):
                 seen_kinds.add("M")
             except BaseException:
                 pass
-        if worst != "S":
-            # every kind of deviation observed: C changed, D default changed, R raised, M missing
-            worst = "".join(k for k in "CDRM" if k in seen_kinds) or worst
+        # equal-valued alternative forms of a valid value (numpy scalars for builtins, tuple <-> list, 0-d arrays):
+        # N = get_params does not return the object passed; Q = the constructor rejects the form;
+        # L = set_params(p=form) is accepted but the estimator can then not be cloned (directly, as a nested
+        #     `name__p`, or configured the way a tuner does from a numpy grid)
+        valid = required.get(p.name, p.default) if (p.default is not p.empty or p.name in required) else None
+        alt_notes = []
+        for w in equal_forms(valid):
+            try:
+                with warnings.catch_warnings():
+                    warnings.simplefilter("ignore")
+                    obj = cls(**dict(required, **{p.name: w}))
+                    got = getattr(obj, p.name)
+                if got is not w:
+                    seen_kinds.add("N")
+                    alt_notes.append("%s(%r) comes back as %s" % (type(w).__name__, valid, type(got).__name__))
+            except AttributeError:
+                pass
+            except BaseException as e:
+                if isinstance(e, (KeyboardInterrupt, SystemExit)):
+                    raise
+                seen_kinds.add("Q")
+                alt_notes.append("%s(%r) rejected: %s" % (type(w).__name__, valid, canon_err(e)))
+                continue
+            for route, note in _clone_routes(cls, required, p.name, w):
+                seen_kinds.add("L")
+                alt_notes.append("%s %s(%r): %s" % (route, type(w).__name__, valid, note))
+        if alt_notes:
+            obs.setdefault("ctor_notes", {})[p.name] = "; ".join(alt_notes[:4])
+        if worst != "S" or seen_kinds & set("NQL"):
+            # every kind of deviation observed: C changed, D default changed, N/Q/L equal-valued form, R raised, M missing
+            worst = "".join(k for k in "CDNQLRM" if k in seen_kinds) or worst
         if (name, "ctor", p.name) in COMPAT_ARTEFACTS:
             worst = "skip"
         ctor.append(worst)
